@@ -170,6 +170,10 @@ func c45Session(r *Rng, sid int, class string) Case {
 	nextID := 1
 	// clients connected before anything else
 	nEarly := r.Intn(3)
+	if class == "race" {
+		// nobody else holds the wait group: a handler that registers with it too late is not waited for
+		nEarly = 0
+	}
 	lazyEarly := time.Duration(0)
 	if r.Chance(0.6) {
 		lazyEarly = time.Duration(r.Range(80, 350)) * time.Millisecond
@@ -210,6 +214,10 @@ func c45Session(r *Rng, sid int, class string) Case {
 	if class != "cancel" {
 		nLate = r.Range(1, 2)
 	}
+	if class == "race" {
+		nRace = r.Range(1, 3)
+		nLate = 1
+	}
 	var atts []*c45Attempt
 	for i := 0; i < nRace+nLate; i++ {
 		conn, err := net.DialTimeout("tcp", addr, 5*time.Second)
@@ -236,13 +244,21 @@ func c45Session(r *Rng, sid int, class string) Case {
 		} else {
 			// offsets concentrated around the close call
 			us := []int{-30000, -5000, -1000, -300, -100, -30, 0, 20, 60, 150, 400, 1000, 4000, 20000}[r.Intn(14)]
+			if class == "race" {
+				us = -r.Range(0, 600)
+				if a.kind == "bad" {
+					a.kind = "raw"
+				}
+			}
 			a.offset = time.Duration(us+r.Range(-20, 20)) * time.Microsecond
 		}
 		atts = append(atts, a)
 	}
 
 	// when to shut down: before / during / after the first compile
-	time.Sleep(time.Duration([]int{0, 5, 40, 150, 500, 1200}[r.Intn(6)]) * time.Millisecond)
+	if class != "race" {
+		time.Sleep(time.Duration([]int{0, 5, 40, 150, 500, 1200}[r.Intn(6)]) * time.Millisecond)
+	}
 
 	fire := func(a *c45Attempt) {
 		log.add(c44Ev{Kind: "attempt", C: a.id, Bad: a.kind == "bad"}, nil)
@@ -414,6 +430,9 @@ func c45Session(r *Rng, sid int, class string) Case {
 	cs.Input = map[string]any{"early_clients": nEarly, "attempts": strings.Join(desc, " ")}
 	cs.Impl = map[string]any{"history": evs}
 	cs.Nontrivial = n101 >= 1 && (n503 >= 1 || class == "cancel")
+	if class == "race" {
+		cs.Nontrivial = n101 >= 1 || n503 >= 2
+	}
 	cs.Key = fmt.Sprintf("%d:%s", sid, strings.Join(desc, ","))
 	return cs
 }
@@ -439,6 +458,9 @@ func c45Gen(r *Rng, tier string, n int) []Case {
 		class := "close"
 		if i%4 == 3 {
 			class = "cancel"
+		}
+		if i%4 == 1 {
+			class = "race"
 		}
 		rr := r.Fork()
 		func() {
